@@ -184,6 +184,20 @@ impl Ctx {
 
 fn main() {
     let args: Vec<String> = std::env::args().collect();
+    if args.len() >= 5 && args[1] == "--probe" {
+        meter::install_panic_hook();
+        let rt = tokio::runtime::Builder::new_current_thread().enable_all().build().expect("runtime");
+        let v = args.get(5).and_then(|s| s.parse().ok()).unwrap_or(0);
+        rustrtc::verif::set_enabled(true);
+        rt.block_on(live::probe(&args[2], &args[3], &args[4], v));
+        for e in rustrtc::verif::take_events() {
+            println!("event: {}", serde_json::to_string(&e).unwrap_or_default());
+        }
+        for p in meter::take_panics() {
+            println!("panic: {p}");
+        }
+        return;
+    }
     if args.len() < 4 {
         eprintln!("usage: inputs <grammar.ndjson> <cases.ndjson> <out.ndjson> [i/n]");
         std::process::exit(2);
